@@ -636,6 +636,18 @@ def install(ip):
     from .prims import ArrayVal, array_attr
     ip.attr_handlers[ArrayVal] = array_attr
 
+    from .values import GenericAlias
+
+    def alias_attr(ip, g, name):
+        if name == "__origin__":
+            return g.origin
+        if name == "__args__":
+            return g.args
+        ip.raise_exc("AttributeError", name)
+    ip.attr_handlers[GenericAlias] = alias_attr
+    ip.ext_modules["typing"].attrs["get_args"] = Builtin("get_args", lambda ip, a, k: a[0].args if isinstance(a[0], GenericAlias) else ())
+    ip.ext_modules["typing"].attrs["get_origin"] = Builtin("get_origin", lambda ip, a, k: a[0].origin if isinstance(a[0], GenericAlias) else None)
+
     ip.call_handlers = {}
     ip.call_handlers[Partial] = lambda ip, p, a, k: ip.call(p.f, p.args + list(a), {**p.kwargs, **k})
     ip.call_handlers[MethodCaller] = lambda ip, m, a, k: ip.call(ip.do_getattr(a[0], m.name), m.args, m.kwargs)
